@@ -1095,7 +1095,14 @@ class TorConfig:
                             initial = [initial]
                     except KeyError:
                         default_key = '__{}'.format(name[:-5])
+                        seen = self.config.get(rn)
                         default = yield self.protocol.get_conf_single(default_key)
+                        if self.config.get(rn) is not seen:
+                            # a CONF_CHANGED for this option arrived
+                            # while we were asking for the fallback:
+                            # what it announced is newer than either
+                            # answer
+                            continue
                         if not default or default == DEFAULT_VALUE:
                             initial = []
                         else:
